@@ -55,15 +55,23 @@ pub fn mk_block(h: &mut Hist, parent: &Hash, coins: &[Coin], difficulty: u64, ta
 /// node is reopened and fully validated. After every step the node is compared with the state
 /// replayed by the reference ledger.
 pub fn compaction_reorg_scenario(seed: u64, depth: usize, dir: &str) -> Result<ScenarioStats, ScenarioFailure> {
+	compaction_reorg_scenario_ex(seed, depth, dir, false)
+}
+
+/// As `compaction_reorg_scenario`; with `headers_first` the headers of the winning fork are delivered before the
+/// compaction (the header chain's head is then on another fork than the body head while the node compacts). The
+/// trunk is long enough for an effective compaction under the chain type in force (horizon + 62 blocks).
+pub fn compaction_reorg_scenario_ex(seed: u64, depth: usize, dir: &str, headers_first: bool) -> Result<ScenarioStats, ScenarioFailure> {
 	let mut prng = Prng::new(seed ^ 0x5CE7A);
 	let mut h = Hist::new(seed, false);
-	let n_trunk = 82 + prng.below(6);
+	let n_trunk = (grin_core::global::cut_through_horizon() as u64 + 62).max(82) + prng.below(6);
 	let mut tip = h.genesis.hash();
 	for i in 1..=n_trunk {
 		let gb = h.honest_block(&tip, if i > 10 && i % 7 == 0 { 1000 } else { 0 });
 		tip = gb.hash;
 	}
-	let replay = json!({"scenario": "compact_at_head_above_a_spender_of_sibling_pairs_then_reorg", "seed": seed, "trunk": n_trunk, "depth": depth});
+	let replay = json!({"scenario": "compact_at_head_above_a_spender_of_sibling_pairs_then_reorg", "seed": seed, "trunk": n_trunk, "depth": depth,
+		"headers_of_the_winning_fork_first": headers_first, "chain_type": format!("{:?}", grin_core::global::get_chain_type())});
 	let fail = |clause: &str, what: String| -> ScenarioFailure { (clause.to_string(), what, replay.clone()) };
 	let pairs: Vec<(Coin, Coin)> = {
 		let st = h.state(&tip);
@@ -152,6 +160,15 @@ pub fn compaction_reorg_scenario(seed: u64, depth: usize, dir: &str) -> Result<S
 		deliver(chain.as_ref().unwrap(), gb, "spender_branch", &mut stats)?;
 	}
 	compare(chain.as_ref().unwrap(), &mut h, "before_compact", &mut stats)?;
+	if headers_first {
+		for gb in [&fork1, &fork2] {
+			chain
+				.as_ref()
+				.unwrap()
+				.process_block_header(&gb.block.header, opts)
+				.map_err(|e| fail("valid_header_rejected", format!("header of fork block {} rejected: {:?}", gb.hash, e)))?;
+		}
+	}
 	{
 		let c = chain.as_ref().unwrap();
 		let tail_before = c.tail().ok().map(|t| t.height);
